@@ -22,7 +22,15 @@ def _call(chunk):
     return out
 
 
-def pmap(fn, items, jobs=None, seed=0, chunk=None, progress=None):
+def _child(conn, chunk):
+    try:
+        conn.send(_call(chunk))
+    finally:
+        conn.close()
+        os._exit(0)
+
+
+def pmap(fn, items, jobs=None, seed=0, chunk=None, progress=None, fresh=False):
     """Apply fn to every item; returns results in the order of items.
 
     fn must be picklable by reference (module level) -- we fork, so closures over module state work
@@ -34,19 +42,71 @@ def pmap(fn, items, jobs=None, seed=0, chunk=None, progress=None):
     jobs = jobs or int(os.environ.get("MC_JOBS", "0")) or min(16, os.cpu_count() or 1)
     order = list(range(n))
     random.Random(seed).shuffle(order)
+    if fresh:
+        chunk = 1       # one forked process per item: every item starts from the parent's interpreter state
     if chunk is None:
         chunk = max(1, min(64, n // (jobs * 8) or 1))
     chunks = [[(i, items[i]) for i in order[k:k + chunk]] for k in range(0, n, chunk)]
     results = [None] * n
     _FN = fn
-    if jobs <= 1 or n <= 1:
+    if (jobs <= 1 or n <= 1) and not fresh:
         for c in chunks:
             for idx, r in _call(c):
                 results[idx] = r
         return results
     ctx = mp.get_context("fork")
     done = 0
-    with ctx.Pool(jobs) as pool:
+    # keep the children's garbage collector away from the parent's heap (otherwise every collection in a child copies it)
+    import gc
+    gc.collect()
+    gc.freeze()
+    try:
+        return _pmap_forked(ctx, chunks, results, jobs, fresh, progress, n)
+    finally:
+        gc.unfreeze()
+
+
+def _pmap_forked(ctx, chunks, results, jobs, fresh, progress, n):
+    done = 0
+    if fresh:
+        # one forked child per item (every item starts from the parent's interpreter state)
+        import gc
+        gc.collect()
+        pending = list(chunks)
+        running = []
+        while pending or running:
+            while pending and len(running) < jobs:
+                c = pending.pop()
+                rd, wr = ctx.Pipe(duplex=False)
+                pr = ctx.Process(target=_child, args=(wr, c))
+                pr.start()
+                wr.close()
+                running.append((pr, rd))
+            still = []
+            progressed = False
+            for pr, rd in running:
+                if rd.poll(0.005):
+                    try:
+                        part = rd.recv()
+                    except EOFError:
+                        part = [(idx, {"__harness_error__": "worker died"}) for idx, _ in []]
+                    for idx, r in part:
+                        results[idx] = r
+                    pr.join()
+                    rd.close()
+                    progressed = True
+                elif not pr.is_alive():
+                    pr.join()
+                    rd.close()
+                    raise HarnessError("a forked worker died without reporting (exit code %s)" % pr.exitcode)
+                else:
+                    still.append((pr, rd))
+            running = still
+        for r in results:
+            if isinstance(r, dict) and "__harness_error__" in r:
+                raise HarnessError(r["__harness_error__"])
+        return results
+    with ctx.Pool(max(1, jobs)) as pool:
         for part in pool.imap_unordered(_call, chunks):
             for idx, r in part:
                 results[idx] = r
